@@ -13,7 +13,9 @@ def dlStr : DL → String
 def c20dialc (a : List String) (obs : String) : String × String :=
   match a with
   | [bg, to, cx, dd, hs, fl] =>
+    let finish0 : Option Nat := match parseU dd, parseU hs with | some d, some h => some (d + h) | _, _ => none
     let (ctxEnd, isDl) : Option Nat × Bool :=
+      if cx == "atfinish" then (finish0, false) else
       match cx.splitOn ":" with
       | ["cancel", t] => (some (natOr t), false)
       | ["deadline", t] => (some (natOr t), true)
